@@ -1492,13 +1492,28 @@ class Interp:
             if hasattr(o, '_vf_slice'):
                 return o._vf_slice(self, lo, hi, st)
             if isinstance(lo, SymInt) or isinstance(hi, SymInt):
-                raise EngineLimit('symbolic slice bound')
+                if st is not None or not isinstance(o, (list, tuple)):
+                    raise EngineLimit('symbolic slice bound')
+                # a symbolic bound over a sequence of concrete length: decided by case split (Python clamps it)
+                lo = self._concrete_bound(lo, len(o))
+                hi = self._concrete_bound(hi, len(o))
             if isinstance(o, list):
                 return TList(o[lo:hi:st])
             if isinstance(o, (tuple, str)):
                 return o[lo:hi:st]
             raise EngineLimit('slice of %r' % type(o).__name__)
         return self.getitem(o, self.ev(e.slice, f))
+
+    def _concrete_bound(self, b, n):
+        """a slice bound as a concrete int in [0, n] (or None): forks over the possible positions of a symbolic one"""
+        if not isinstance(b, SymInt):
+            return b
+        import z3 as _z3
+        c = sym.CTX()
+        for k in range(n):
+            if c.decide(b.t <= k if k == 0 else b.t == k):
+                return k
+        return n
 
     def ev_IfExp(self, e, f):
         return self.ev(e.body, f) if self.truth(self.ev(e.test, f)) else self.ev(e.orelse, f)
